@@ -8,6 +8,19 @@ use crate::fees;
 use crate::utils;
 use std::collections::{BTreeMap, BTreeSet, HashMap, HashSet};
 
+#[cfg(not(feature = "verif-hooks"))]
+type SelectionRng = rand::rngs::ThreadRng;
+#[cfg(not(feature = "verif-hooks"))]
+fn selection_rng() -> SelectionRng {
+    rand::thread_rng()
+}
+#[cfg(feature = "verif-hooks")]
+type SelectionRng = crate::verif_hooks::SimRng;
+#[cfg(feature = "verif-hooks")]
+fn selection_rng() -> SelectionRng {
+    crate::verif_hooks::SimRng::attach()
+}
+
 fn count_needed_vkeys(tx_builder: &TransactionBuilder) -> usize {
     let mut input_hashes: Ed25519KeyHashes = Ed25519KeyHashes::from(&tx_builder.inputs);
     input_hashes.extend_move(Ed25519KeyHashes::from(&tx_builder.collateral));
@@ -472,7 +485,7 @@ impl TransactionBuilder {
                     return Err(JsError::from_str("Multiasset values not supported by RandomImprove. Please use RandomImproveMultiAsset"));
                 }
                 use rand::Rng;
-                let mut rng = rand::thread_rng();
+                let mut rng = selection_rng();
                 let mut available_indices =
                     (0..available_inputs.len()).collect::<BTreeSet<usize>>();
                 self.cip2_random_improve_by(
@@ -535,7 +548,7 @@ impl TransactionBuilder {
             }
             CoinSelectionStrategyCIP2::RandomImproveMultiAsset => {
                 use rand::Rng;
-                let mut rng = rand::thread_rng();
+                let mut rng = selection_rng();
                 let mut available_indices =
                     (0..available_inputs.len()).collect::<BTreeSet<usize>>();
                 // run random-improve by each asset type
@@ -642,7 +655,7 @@ impl TransactionBuilder {
         input_total: &mut Value,
         output_total: &mut Value,
         by: F,
-        rng: &mut rand::rngs::ThreadRng,
+        rng: &mut SelectionRng,
         pure_ada: bool,
     ) -> Result<(), JsError>
     where
